@@ -7,6 +7,7 @@
   `Model/BankLayout.lean`.
 -/
 import PdsVerif.Lemmas.BankReal
+import PdsVerif.Lemmas.CauchyPow
 import PdsVerif.Props.C19
 import Mathlib.Analysis.SpecialFunctions.Gaussian.GaussianIntegral
 import Mathlib.Analysis.SpecialFunctions.Gamma.Basic
@@ -1622,6 +1623,16 @@ theorem gammatone_erb_order1 (mc : Bool) (rate l r : ℝ) (hrate : 0 < rate) (hl
       nsq (gammatone_H 1 f.alpha f.c f.xi f.offset f.xi) = hertz_to_angular (r - l) rate := by
   apply gammatone_erb_partial mc 1 le_rfl rate l r hrate hlr
   simp
+
+/-- **gammatone_erb** (`erb=True`), the full statement, for every order `n ≥ 1`: the equivalent rectangular
+bandwidth `∫|H|² / |H(ξ)|²` of the generated gammatone response equals the angular distance between the band
+edges.  The integral identity that `gammatone_erb_partial` assumes is
+`CauchyPow.integral_inv_one_add_sq_pow` (reduction formula + induction, `Lemmas/CauchyPow.lean`). -/
+theorem gammatone_erb (mc : Bool) (n : ℕ) (hn : 1 ≤ n) (rate l r : ℝ) (hrate : 0 < rate) (hlr : l < r) :
+    let f := gammaFilt false true mc n rate l r
+    (∫ ω : ℝ, nsq (gammatone_H n f.alpha f.c f.xi f.offset ω)) /
+      nsq (gammatone_H n f.alpha f.c f.xi f.offset f.xi) = hertz_to_angular (r - l) rate :=
+  gammatone_erb_partial mc n hn rate l r hrate hlr (CauchyPow.integral_inv_one_add_sq_pow n hn)
 
 /-- bin-theorem hypotheses: vertices 20 < 300 < 700 Hz at 8 kHz, width 64 -/
 example : ∃ res, triResponse (triParts (8000:ℝ) 20 300 700 64 true false) 64 true = .ok res ∧ res.length = 33 := by
